@@ -49,13 +49,14 @@ Theorem C03_terminates :
 Proof. exact find_roots_terminates. Qed.
 Print Assumptions C03_terminates.
 
-(* Filters: whatever descriptors the source serves (fields present or missing, as
-   long as present fields are the manifest's), a predecessor is followed exactly
+(* Filters: whatever descriptors the source serves ([served_ok]: fields present or
+   missing, as long as present fields are the manifest's; complete when the source
+   is a ReferrerLister, whose first filter does not fetch), a predecessor is followed exactly
    when its manifest's artifact type (artifactType, else config media type) /
    annotation value satisfies every filter; order and multiplicity preserved. *)
 Theorem C03_filter_exact :
   forall (s : source) (fs : list filter) (x : nat),
-    Forall (desc_consistent s) (s_preds s x) ->
+    Forall (served_ok s) (s_preds s x) ->
     map d_id (find_preds s fs x) =
     List.filter (fun id => forallb (fun f => keep_spec s f id) fs) (map d_id (s_preds s x)).
 Proof. exact find_preds_exact. Qed.
@@ -63,7 +64,7 @@ Print Assumptions C03_filter_exact.
 
 Theorem C03_filter_followed_iff :
   forall (s : source) (fs : list filter) (x y : nat),
-    Forall (desc_consistent s) (s_preds s x) ->
+    Forall (served_ok s) (s_preds s x) ->
     (In y (map d_id (find_preds s fs x)) <->
      In y (map d_id (s_preds s x)) /\ forall f, In f fs -> keep_spec s f y = true).
 Proof. exact find_preds_followed_iff. Qed.
@@ -74,7 +75,7 @@ Print Assumptions C03_filter_followed_iff.
    manifest that declares artifactType (defect F9). *)
 Theorem C03_filter_exact_refuted_prefix :
   exists (s : source) (re : str -> bool) (x : nat),
-    Forall (desc_consistent s) (s_preds s x) /\
+    Forall (served_ok s) (s_preds s x) /\
     map d_id (find_preds_prefix s [FArt (Some re)] x) <>
     List.filter (fun id => re (effective_type s id)) (map d_id (s_preds s x)).
 Proof. exact find_preds_prefix_refuted. Qed.
@@ -155,15 +156,41 @@ Proof.
     repeat (destruct H as [<- | H]; [simpl; lia|]); contradiction.
 Qed.
 
-Example C03_ex_consistent : forall x, Forall (desc_consistent ex_source) (s_preds ex_source x).
+Example C03_ex_consistent : forall x, Forall (served_ok ex_source) (s_preds ex_source x).
 Proof.
   intros x. destruct x as [|[|[|[|x]]]]; simpl.
-  - repeat constructor.
-  - repeat constructor.
+  - repeat constructor. discriminate.
+  - repeat constructor; discriminate.
   - constructor.
-  - constructor; [|constructor]. split; [right; reflexivity | intro k; reflexivity].
+  - constructor; [|constructor]. split; [|discriminate].
+    split; [right; reflexivity | intro k; reflexivity].
   - constructor.
 Qed.
+
+(* a ReferrerLister source (remote repository) serving complete referrer descriptors *)
+Definition ex_remote : source :=
+  mkSource (fun x => match x with
+                     | 1 => [mkDesc 2 (b "sbom") (Some [(b "k", b "w")]); mkDesc 4 (b "sig") None]
+                     | _ => [] end)
+           (fun x => match x with 2 => KArtifact | _ => KImage end)
+           (fun x => match x with 2 => b "sbom" | _ => [] end)
+           (fun x => match x with 4 => b "sig" | _ => [] end)
+           (fun x => match x with 2 => Some [(b "k", b "w")] | _ => None end) true.
+
+Example C03_ex_remote_ok : forall x, Forall (served_ok ex_remote) (s_preds ex_remote x).
+Proof.
+  intros x. destruct x as [|[|x]]; simpl; try constructor.
+  - split; [split; [right; reflexivity | intro k; reflexivity]|].
+    intros _. split; [reflexivity | intro k; reflexivity].
+  - constructor; [|constructor].
+    split; [split; [right; reflexivity | exact I]|].
+    intros _. split; [reflexivity | intro k; reflexivity].
+Qed.
+
+Example C03_ex_remote_filter :
+  map d_id (find_preds ex_remote [FAnn (b "k") None; FArt (Some (str_eqb (b "sbom")))] 1) = [2] /\
+  map d_id (find_preds ex_remote [FArt (Some (str_eqb (b "sig")))] 1) = [4].
+Proof. vm_compute. split; reflexivity. Qed.
 
 (* unlimited, no filter: the two tops 2 and 4 *)
 Example C03_ex_unlimited :
